@@ -5,13 +5,14 @@
    the situation of every operator node in a monomorphic program — if the checker's rule accepts
    the node with type t, then the run-time rule on the physical dimensions of the operand units
    (a) does not fail with IncompatibleUnits and (b) yields exactly the dimension t, provided the
-   exponent the VM computes for a power equals the statically evaluated one (ExpAgree — this is
-   the hypothesis the open finding C01-exponent-f64 violates).  NOT proved: the lifting to whole
-   expressions, statements, function calls with generic instantiation, structs and lists
+   exponent the VM computes for a power equals the statically evaluated one (ExpAgree — the
+   hypothesis the finding C01-exponent-f64 violated; since its repair it is the computable
+   condition exps_rt, see C01_expr_agree_fixed_partial).  NOT proved: function calls with
+   generic instantiation, conditionals, structs and lists
    (C01_sound_full below); those are decided per run by the oracle of tools/props/c01.py on the
    real implementation (raw unit of every global through the hook vs the inferred type). *)
 From Coq Require Import String List ZArith QArith Qcanon Bool.
-From NV Require Import Dim.Model Dim.Infer Dim.Sem Dim.Proofs Dim.Run Dim.RunProofs Dim.RunTreeProofs Dim.RunProgProofs Dim.FloatExact.
+From NV Require Import Dim.Model Dim.Infer Dim.Sem Dim.Proofs Dim.Run Dim.RunProofs Dim.RunTreeProofs Dim.RunProgProofs Dim.FloatExact Dim.RunFixed.
 From Coq Require Import Floats.
 Import ListNotations.
 Open Scope string_scope.
@@ -61,24 +62,63 @@ Theorem C01_program_sound_partial :
 Proof. exact prog_sound. Qed.
 Print Assumptions C01_program_sound_partial.
 
-(* The ExpAgree hypothesis is really needed — finding C01-exponent-f64, with the witness computed
-   inside the kernel on primitive binary64 floats through a port of num-rational's
-   approximate_float (Dim/FloatExact.v):  for  `(m^2)^(0.1+0.2)`  the checker evaluates the
-   exponent in exact rationals (the literals are converted one by one: 1/10 and 1/5, sum 3/10,
-   type Length^(3/5)), the VM evaluates 0.1+0.2 in f64 first and converts the sum:
-   1125899906842624/3752999689475413.  The stored unit m^(2251799813685248/3752999689475413) and
-   m^(3/5) then fail the run-time unit check of `+` although both operands have the static type
-   Length^(3/5). *)
-Theorem C01_refuted_exponent :
+(* After the repair of finding C01-exponent-f64 (numbat commit "fix: powers with a dimensionful base
+   use the exactly evaluated exponent at run time") the VM no longer re-evaluates the exponent
+   expression in f64: it loads to_f64 of the exponent the checker computed, and Quantity::power
+   converts that f64 back with Ratio::from_f64.  Dim/RunFixed.v models exactly this (rexp_fixed,
+   through the kernel's primitive binary64 floats and the port of approximate_float), and ExpAgree
+   becomes the computable side condition exps_rt: every constant exponent in the expression
+   survives the f64 round trip.  With it the two theorems above hold WITHOUT the ExpAgree
+   hypothesis.  exps_rt is not provable for all rationals (it is false beyond 53-bit parts), so it
+   stays a decidable premise (false instance: C01_roundtrip_not_total); on the real implementation
+   the check's oracle compares the run-time unit of every generated power with its static type. *)
+Theorem C01_expr_agree_fixed_partial :
+  forall (gs : env) (g : string -> option dtype),
+    env_agree gs g ->
+    forall e, arith e -> exps_rt e = true -> forall s t ns s1,
+      tc_env s = gs -> elab_expr e s = Ok (t, ns, s1) ->
+      tc_env s1 = gs /\ exists d, t = TDim d /\ novar d = true /\ rt_expr g rexp_fixed e = RDim d.
+Proof. exact rt_expr_agree_fixed. Qed.
+Print Assumptions C01_expr_agree_fixed_partial.
+
+Theorem C01_program_sound_fixed_partial :
+  forall (p : list item), Forall item_arith p -> forallb item_rt p = true ->
+  forall (g : string -> option dtype) (s : tc) (outs : list sout) (s' : tc),
+    env_agree2 (tc_env s) g -> allq (tc_env s) ->
+    check (map stmt_of p) s = Ok (outs, s') ->
+    exists ds, rt_prog g rexp_fixed p = Some ds
+               /\ outs = map (fun id => out_of (fst id) (snd id)) (combine p ds)
+               /\ length ds = length p.
+Proof. exact prog_sound_fixed. Qed.
+Print Assumptions C01_program_sound_fixed_partial.
+
+(* Regression example for the repaired finding C01-exponent-f64 (formerly the theorem
+   C01_refuted_exponent), computed inside the kernel.  First four conjuncts: what went wrong — for
+   `(m^2)^(0.1+0.2)` the checker's exact exponent is 3/10 (type Length^(3/5)), the f64 evaluation
+   of 0.1+0.2 converts to 1125899906842624/3752999689475413, and with that exponent the run-time
+   `+` with m^(3/5) is a unit incompatibility.  Last three: the repaired path — 3/10 survives the
+   round trip through f64, the whole witness satisfies exps_rt, and the repaired run time gives
+   `(m^2)^(0.1+0.2) + m^(3/5)` the dimension Length^(3/5). *)
+Example C01_exponent_regression :
+  let e01 := EBin OAdd (EScalar (qcf 1 10)) (EScalar (qcf 1 5)) in
+  let w := EBin OAdd (EBin OPow (EBin OPow (EUnit "meter") (EScalar (qc 2))) e01)
+                     (EBin OPow (EUnit "meter") (EBin ODiv (EScalar (qc 3)) (EScalar (qc 5)))) in
+  let g := fun x : string => if String.eqb x "meter" then Some [(FBase "Length", Qc1)] else None in
   from_f64 0.1%float = Some (1 # 10)%Q /\ from_f64 0.2%float = Some (1 # 5)%Q
-  /\ (match const_eval (EBin OAdd (EScalar (qcf 1 10)) (EScalar (qcf 1 5))) with
-      | Ok q => qc_eqb q (qcf 3 10) | Err _ => false end) = true
+  /\ (match const_eval e01 with Ok q => qc_eqb q (qcf 3 10) | Err _ => false end) = true
   /\ from_f64 (0.1 + 0.2)%float = Some (1125899906842624 # 3752999689475413)%Q
-  /\ dtype_eqb (dpower [(FBase "Length", qc 2)] (qcf 3 10)) (dpower [(FBase "Length", qc 1)] (qcf 3 5)) = true
   /\ rt_binop OAdd (dpower [(FBase "Length", qc 2)] (Q2Qc (1125899906842624 # 3752999689475413)))
-                   (dpower [(FBase "Length", qc 1)] (qcf 3 5)) None = RIncompatible.
+                   (dpower [(FBase "Length", qc 1)] (qcf 3 5)) None = RIncompatible
+  /\ exp_roundtrip (qcf 3 10) = true
+  /\ exps_rt w = true
+  /\ (match rt_expr g rexp_fixed w with
+      | RDim d => dtype_eqb d (dpower [(FBase "Length", qc 1)] (qcf 3 5)) | _ => false end) = true.
 Proof. vm_compute. repeat split; reflexivity. Qed.
-Print Assumptions C01_refuted_exponent.
+
+(* exps_rt is a real restriction: an exponent with a part beyond 2^53 does not survive *)
+Example C01_roundtrip_not_total :
+  exp_roundtrip (Q2Qc (1 # 9007199254740993)%Q) = false.
+Proof. vm_compute. reflexivity. Qed.
 
 (* full statement, not proved (rt_expr is in Dim/Run.v) *)
 Definition C01_sound_full : Prop :=
